@@ -74,6 +74,13 @@ pub struct Case {
     pub mutation: Mutn,
     pub name: String,
     pub select_seed: u64,
+    /// the locale reported in Client Information; the Disconnect text is produced by the real fixed localization adapter
+    #[serde(default = "default_locale")]
+    pub locale: String,
+}
+
+fn default_locale() -> String {
+    "en_us".into()
 }
 
 pub struct C04;
@@ -111,6 +118,7 @@ fn fields_of(p: &Pkt) -> Vec<Field> {
             Field::VarInt(*particle_status),
         ],
         Pkt::CfgKeepAliveSb { id } => vec![Field::Raw(id.to_be_bytes().to_vec())],
+        Pkt::CfgResourcePackResponse { uuid, result } => vec![Field::Raw(uuid.as_bytes().to_vec()), Field::VarInt(*result)],
         _ => vec![],
     }
 }
@@ -306,6 +314,7 @@ fn build(pkt: &Pkt, m: &Mutn, max: i32, body_ignored: bool) -> Built {
             fs[fi] = Field::VarInt(*v);
             let valid = match pkt {
                 Pkt::Handshake { .. } => (1..=3).contains(v),
+                Pkt::CfgResourcePackResponse { .. } => (0..=7).contains(v),
                 _ => (0..=2).contains(v),
             };
             Built { first: normal(&encode_fields(&fs)), rest: vec![], refuse_on_prefix: false, must_err: !valid, reached: true }
@@ -335,7 +344,11 @@ fn run_case(case: &Case) -> (sim::SimOutcome, Obs) {
     let obs = Arc::new(Mutex::new(Obs { reached: false, refused_on_prefix: None, must_err: false, refuse_expected: false, step_name: "", encrypted: false, done_before_eof: false }));
     let o2 = Arc::clone(&obs);
     let case2 = case.clone();
-    let adapters = AdapterScript { strategy: StrategyV::None, ..Default::default() };
+    let tables: std::collections::BTreeMap<String, std::collections::BTreeMap<String, String>> = ["en", "en_us", "de"]
+        .iter()
+        .map(|l| (l.to_string(), [("disconnect_no_target".to_string(), format!("no target ({l})")), ("disconnect_timeout".to_string(), format!("timeout ({l})"))].into_iter().collect()))
+        .collect();
+    let adapters = AdapterScript { strategy: StrategyV::None, loc: sim::LocV::Fixed { default_locale: "en_us".into(), tables }, ..Default::default() };
     let out = sim::run_sim(
         &case.cfg,
         &adapters,
@@ -354,7 +367,7 @@ fn run_case(case: &Case) -> (sim::SimOutcome, Obs) {
                 if with_auth_cookie {
                     steps.push("AuthCookie");
                 }
-                steps.extend(["EncryptionResponse", "LoginAck", "PluginMessage", "KeepAlive", "ClientInformation"]);
+                steps.extend(["EncryptionResponse", "LoginAck", "PluginMessage", "KeepAlive", "ResourcePackResponse", "ClientInformation"]);
             }
             let at = crate::runner::idx(case.at, steps.len());
             c.cb_phase = if status { rc::Phase::Status } else { rc::Phase::Login };
@@ -380,7 +393,8 @@ fn run_case(case: &Case) -> (sim::SimOutcome, Obs) {
                     "LoginAck" => Pkt::LoginAck,
                     "PluginMessage" => Pkt::CfgPluginMessageSb,
                     "KeepAlive" => Pkt::CfgKeepAliveSb { id: 1 },
-                    _ => sim::client_information("en_us"),
+                    "ResourcePackResponse" => Pkt::CfgResourcePackResponse { uuid: uuid::Uuid::from_u128(7), result: 3 },
+                    _ => sim::client_information(&case.locale),
                 };
                 if c.server_done() {
                     return;
@@ -504,13 +518,22 @@ impl Check for C04 {
             mutation,
             prop_oneof![3 => Just("Alex".to_string()), 1 => gens::name()],
             any::<u64>(),
+            prop_oneof![
+                3 => Just("en_us".to_string()),
+                2 => proptest::sample::select(vec!["", "_", "__", "_us", "en_", "de_DE_x_y", "\u{65e5}\u{672c}_jp", "\u{e9}_\u{e9}", "a\u{1f600}_b", "zz", "-", "en-us"]).prop_map(str::to_string),
+                2 => "[a-z_\\x{80}-\\x{2fff}]{0,16}",
+                1 => "\\PC{0,40}",
+            ],
+            prop_oneof![3 => Just(false), 1 => Just(true)],
         )
-            .prop_map(|(max_len, intent, secret, at, mutation, name, select_seed)| {
+            .prop_map(|(max_len, intent, secret, at, mutation, name, select_seed, locale, to_the_end)| {
+                // a share of cases plays the transcript to its last step (Client Information), where the locale is used
+                let at = if to_the_end { u16::MAX } else { at };
                 // with a 64-byte frame limit the RSA ciphertexts of the Encryption Response do not fit: keep login below it reachable
                 let max_len = if max_len < 400 && intent != 1 { 400 } else { max_len };
                 // a flood is judged against the allocation bound, which must stay below the flood's size
                 let max_len = if matches!(mutation, Mutn::Flood { .. }) { max_len.min(1000) } else { max_len };
-                Case { cfg: ConnCfg { secret, max_len, ..Default::default() }, intent, at, mutation, name, select_seed }
+                Case { cfg: ConnCfg { secret, max_len, ..Default::default() }, intent, at, mutation, name, select_seed, locale }
             })
             .boxed()
     }
@@ -529,7 +552,10 @@ impl Check for C04 {
         } else {
             info.class("mutated_frame_not_reached");
         }
-        info.nontrivial = o.reached && !matches!(case.mutation, Mutn::None);
+        if o.reached && o.step_name == "ClientInformation" && case.locale != "en_us" {
+            info.class(if case.locale.is_ascii() { "locale:unusual_ascii" } else { "locale:multi_byte" });
+        }
+        info.nontrivial = o.reached && (!matches!(case.mutation, Mutn::None) || (o.step_name == "ClientInformation" && case.locale != "en_us"));
         // (1) no panic
         if let sim::ServerEnd::Panicked { msg } = &out.end {
             let first = msg.lines().last().unwrap_or("").to_string();
